@@ -60,7 +60,8 @@ class SimNet:
         u = urlparse(url)
         self.host(u.hostname).objects[u.path] = bytes(data)
 
-    def host_state(self, hostname):
+    def host_state(self, hostname, peek=False):
+        """state of a host as seen by the next connection attempt (peek=True: without consuming a flaky attempt)"""
         h = self.hosts.get(hostname)
         if h is None:
             return "dnsfail"
@@ -68,6 +69,12 @@ class SimNet:
         for (t0, t1, kind) in h.outages:
             if t0 <= now < t1:
                 return kind
+        if h.state == "flaky" and peek:
+            return "flaky"
+        if h.state == "flaky":
+            # every other connection attempt to this host is refused (a connection that comes and goes)
+            h.flaky_count = getattr(h, "flaky_count", 0) + 1
+            return "refuse" if h.flaky_count % 2 == 1 else "up"
         return h.state
 
     # ---- installation ----
